@@ -792,6 +792,50 @@ base.register(base.Family("syntax_errors_x", ["C10"], _x_syn_cases, FS._syn_chec
                           rule="oracle of syntax_errors: BlackbirdSyntaxError (no other type) at the line/column of the first parser report, not before the edit"))
 
 
+#  * syntax_errors_ws (C10): whitespace that IS a token: a script indented as a whole (4 blanks / a tab / 1-3 blanks before every line), an
+#                    indentation-only line between statements or inside a loop body, a statement indented outside any loop. TAB is a token of
+#                    the grammar, so these texts are ungrammatical (or, for 1-3 blanks, grammatical with shifted columns) and the position of
+#                    the report is the one the parser gives for the text AS WRITTEN.
+
+def _ws_syn_cases(rng, n, tier):
+    kinds = ["all-indented-4", "all-indented-tab", "all-indented-1to3", "indent-only-line", "indent-only-line-in-loop", "statement-indented", "trailing-indent-line"]
+    for i in range(n):
+        kind = kinds[i % len(kinds)]
+        nm = rng.choice(["t", "prog_1", "main"])
+        body = ["Sgate(0.%d) | 0" % rng.randrange(1, 9), "BSgate(0.1, 0.2) | [0, 1]", "MeasureX | 1"][:rng.randrange(1, 4)]
+        loop = ["for int i in 0:2", "    Rgate(i) | i", "    Vac | i"]
+        lines = ["name " + nm, "version 1.0", ""] + body
+        if kind.endswith("in-loop") or rng.random() < 0.3:
+            lines += loop
+        base_text = "\n".join(lines) + "\n"
+        if kind.startswith("all-indented"):
+            pre = {"all-indented-4": "    ", "all-indented-tab": "\t", "all-indented-1to3": " " * rng.randrange(1, 4)}[kind]
+            fault = rng.choice(["", "", "missing-pipe"])
+            ls = list(lines)
+            if fault:
+                ls[3] = ls[3].replace(" |", "", 1)
+            text = "\n".join((pre + l) if l else l for l in ls) + "\n"
+        elif kind == "indent-only-line":
+            k = rng.randrange(3, len(lines))
+            text = "\n".join(lines[:k] + [rng.choice(["    ", "\t", "        "])] + lines[k:]) + "\n"
+        elif kind == "indent-only-line-in-loop":
+            k = lines.index(loop[0]) + rng.randrange(1, 3)
+            text = "\n".join(lines[:k] + [rng.choice(["    ", "\t"])] + lines[k:]) + "\n"
+        elif kind == "statement-indented":
+            k = rng.randrange(3, 3 + len(body))
+            ls = list(lines)
+            ls[k] = rng.choice(["    ", "\t"]) + ls[k]
+            text = "\n".join(ls) + "\n"
+        else:
+            text = base_text + rng.choice(["    ", "\t", "    \n"])
+        yield {"class": "whitespace-token|" + kind, "input": {"text": text, "base": None}}
+
+
+base.register(base.Family("syntax_errors_ws", ["C10"], _ws_syn_cases, FS._syn_check, weight=0.08, bound="7 kinds of indentation that is a token, 1-3 statements, with and without a loop",
+                          rule="oracle of syntax_errors: what the shipped parser reports for the text as written decides (grammatical: no syntax-stage error; "
+                               "ungrammatical: BlackbirdSyntaxError at that line/column)"))
+
+
 #  * include_y      (C11): ill-formed CALLS of an included program: every template parameter given plus one more keyword (scalar number, expression,
 #                    variable, misspelt duplicate), a missing keyword, keywords to a non-template, too many / too few modes; at top level and in a loop body.
 
